@@ -35,6 +35,7 @@ import (
 	"sort"
 	"strings"
 	"sync"
+	"time"
 
 	"golang.org/x/tools/go/packages"
 	"honnef.co/go/tools/go/ir"
@@ -158,11 +159,15 @@ type sink struct {
 	fns    []*Fn
 	total  int
 	skippd int
+	closed bool
 }
 
 func (s *sink) add(f *Fn) {
 	s.mu.Lock()
 	defer s.mu.Unlock()
+	if s.closed {
+		return
+	}
 	s.total++
 	if !s.dedup {
 		s.fns = append(s.fns, f)
@@ -193,6 +198,7 @@ func main() {
 	minb := flag.Int("minblocks", 0, "skip functions with fewer blocks")
 	dedup := flag.Bool("dedup", false, "keep one record per distinct (CFG, answers) artefact")
 	dir := flag.String("dir", "", "module directory for -pkgs")
+	deadline := flag.Int("deadline", 900, "overall time limit in seconds for building the -src files")
 	tests := flag.Bool("tests", false, "include test variants for -pkgs")
 	flag.Var(&srcs, "src", "import-free Go source file forming one package (repeatable); @file = list of files")
 	flag.Var(&pkgs, "pkgs", "package pattern (repeatable)")
@@ -310,7 +316,17 @@ func main() {
 				}
 			}(file)
 		}
-		wg.Wait()
+		// watchdog: a builder that hangs on a generated program must not hang the check
+		done := make(chan struct{})
+		go func() { wg.Wait(); close(done) }()
+		select {
+		case <-done:
+		case <-time.After(time.Duration(*deadline) * time.Second):
+			fail("TIMEOUT: building the sources did not finish within %d s (builder hang?)", *deadline)
+			sk.mu.Lock() // freeze the sink: late results are dropped
+			sk.closed = true
+			sk.mu.Unlock()
+		}
 	}
 
 	// --- directories type-checked with the source importer (testdata packages) -----------------
